@@ -37,6 +37,11 @@ CHECKS = {
    ref="DESIGN.md 3.7, 4 C09",
    note=TB + " math/big is correct; Exp result < modulus.",
    tech="static analysis: exact constant comparison against checker-derived reference values, structural shape matching on SSA, error-discipline paths"),
+ "C10": dict(cat="other",
+   text="Decides structural necessary conditions: panic-freedom proof (E2) of every IKECrypto.Decrypt for all inputs; Encrypt's production arm shape (IV = first block of a fresh 16+len(padded) buffer, filled per call by io.ReadFull(crypto/rand.Reader) with the error checked, that block handed to NewCBCEncrypter, CryptBlocks into out[16:], whole buffer returned); no cipher method writes its receiver or package state; NewCrypto guards len(key) == descriptor key length, registered lengths {16,24,32}; PKCS7: pad count in [1,16] by interval proof with the block size bound at every call site, last octet p-1, padded length multiple of 16 (remainder identity); Decrypt strips last+1 and inspects no other pad octet. decrypt(encrypt(x)) = x and the exact size law are not decided.",
+   ref="DESIGN.md 4 C10",
+   note=TB + " crypto/aes and crypto/cipher implement AES-CBC correctly; Iv/Padding test-injection fields never assigned by non-test code.",
+   tech="static analysis: E2 bounds prover, structural shape matching on SSA with closed-world dead-branch elimination, interval and remainder reasoning"),
  "C11": dict(cat="other",
    text="Exhaustive over the finite registries (13 algorithms, 18 descriptors, 11 stringifiers): each descriptor's methods are evaluated by constant propagation and compared with an RFC reference table (identifier, key-length attribute, key/output length, hash, key-length guard); closure (stringifier of the descriptor's own id on its own attribute returns its own name) and no-foreign-mapping (every name-returning path pins the attribute to that name's values; identifier matches) are decided on the decision trees of the stringifiers; Decode/ToTransform shapes and the nil-descriptor guards of the SA constructors are structural rules. The wire round trip of the transform itself is C03/C05.",
    ref="DESIGN.md 3.7, 4 C11",
